@@ -81,8 +81,8 @@ fn pool(odd: bool, compressible: bool) -> Vec<(String, u8)> {
 fn cell(r: &mut Rng, kind: u8, hex: bool, compressible: bool, wide: bool, row_id: i64) -> Sx {
     match kind {
         0 => {
-            // integer columns whose range needs u16 / u32 storage get LZ4-compressed and then break
-            // compaction (finding F29); only the dedicated family carries them
+            // integer columns whose range needs u16 / u32 storage get LZ4-compressed; until e838f01
+            // compaction could not decode them (finding F29, fixed) - every family carries them now
             let v = match r.below(6) {
                 0 => r.range(-3, 3),
                 1 if wide => r.range(-100000, 100000),
